@@ -2,10 +2,12 @@
   Driver for C07: sorting-based algorithms (greedy / round robin / uncontrolled) over a sequence
   of `schedule()` calls, and whole simulations with the modelled algorithm as scheduler — without
   estimator through `Sim.run` (`AcnModel/WireSorted.lean`), with the rampdown estimator through the
-  stateful loop `SimSortedRd.runSt` (`AcnModel/WireSortedRd.lean`).  The request / response format
-  is documented in those two files.
+  stateful loop `SimSortedRd.runSt` (`AcnModel/WireSortedRd.lean`), with an ARBITRARY estimator
+  (requests marked `"custom_est": true`: the dict the estimator returned is an input of every call)
+  through `Sorted.scheduleCallEst` / `SimSortedEst.sortedSchedEst` (`AcnModel/WireSortedEst.lean`).
+  The request / response format is documented in those three files.
 -/
-import AcnModel.WireSortedRd
+import AcnModel.WireSortedEst
 open Acn.Wire
 
-def main : IO Unit := runDriver Acn.WireSortedRd.handle
+def main : IO Unit := runDriver Acn.WireSortedEst.handle
